@@ -1,7 +1,8 @@
 ----------------------------- MODULE StorageRead -----------------------------
 (* Filter and group reads of the storage service across shards (C21).                                       *)
 (*                                                                                                          *)
-(* Data: two shards with the disjoint time ranges [0,H) and [H,2H) (shard groups never overlap: C18, and   *)
+(* Data: NShards (2 or 3) shards with the disjoint time ranges [0,H), [H,2H), [2H,3H) (shard groups never   *)
+(* overlap: C18, and                                                                                         *)
 (* points are routed by time: C19); a dataset gives every series of a small pool a set of timestamps, each  *)
 (* point living in the shard that owns its time.  A series is (measurement, host, region, field) with tag   *)
 (* value 0 = "tag absent"; values are small integers whose order is the byte order of their concretisation. *)
@@ -19,7 +20,11 @@
 (*           indexSeriesCursor: series keys of the selected shards x fields of the measurement in those     *)
 (*           shards, filtered by the predicate (rows for key/field pairs without data exist).               *)
 (*   Fetch   multiShardArrayCursors: per row the shard cursors are read one after the other (concatenated,  *)
-(*           never merged), each restricted to [lo, hi-1].                                                  *)
+(*           never merged), each restricted to [lo, hi-1].  A shard whose field set lacks the measurement's  *)
+(*           field gives a nil cursor (skipped by createCursor / nextArrayCursor); a shard that has the      *)
+(*           field but no point of THIS series in range gives a non-nil cursor whose first array is empty,   *)
+(*           and *MultiShardArrayCursor.Next loops on to the following shard (a gap in a middle shard must   *)
+(*           not end the series: needs three shards).                                                        *)
 (*   Group   groupResultSet.groupBySort: rows that have points get the sort key <v1,\0,v2,\0,..> with 0xff   *)
 (*           for a missing key, a stable sort (insertion sort below 12 rows), groups = runs of equal keys.  *)
 (* Not modelled: regex predicates, field-value predicates, aggregates in ReadGroup, descending (last)       *)
@@ -31,7 +36,8 @@ CONSTANTS SeriesIdx,    \* indexes into Pool
           Patterns,     \* possible timestamp sets of a series
           RangeIdx,     \* indexes into RangeList (request ranges <<lo, hi>>)
           PredIdx,      \* indexes into Preds
-          H             \* shard k owns [(k-1)*H, k*H)
+          H,            \* shard k owns [(k-1)*H, k*H)
+          NShards       \* 2 or 3
 
 VARIABLES c, phase, exp, shards, rows, res, grp
 vars == <<c, phase, exp, shards, rows, res, grp>>
@@ -45,7 +51,9 @@ Pool == << [m |-> 1, host |-> 1, region |-> 1, f |-> 1],
            [m |-> 2, host |-> 2, region |-> 1, f |-> 1] >>
 
 \* with H = 4: everything, across the boundary, adjacent to it, one shard each, a single instant, nothing
-RangeList == << <<0, 8>>, <<2, 6>>, <<3, 5>>, <<0, 4>>, <<4, 8>>, <<1, 2>>, <<7, 8>> >>
+\* 8..11 for three shards: everything, across both boundaries, adjacent to both, inside the middle shard
+RangeList == << <<0, 8>>, <<2, 6>>, <<3, 5>>, <<0, 4>>, <<4, 8>>, <<1, 2>>, <<7, 8>>,
+               <<0, 12>>, <<2, 10>>, <<3, 9>>, <<5, 7>> >>
 
 Preds == << <<"true">>,
             <<"eq", "host", 1>>,
@@ -105,7 +113,7 @@ Expected == LET M == Matching IN [filter |-> FilterExpOf(M), groups |-> [g \in 1
 ShardLo(k) == (k - 1) * H
 ShardHi(k) == k * H
 \* meta ShardGroupInfo.Overlaps(min, max) with max = the exclusive end of the request: an inclusive test
-SelectedShards == SelectSeq(<<1, 2>>, LAMBDA k : ShardLo(k) <= c.hi /\ ShardHi(k) > c.lo)
+SelectedShards == SelectSeq([k \in 1..NShards |-> k], LAMBDA k : ShardLo(k) <= c.hi /\ ShardHi(k) > c.lo)
 InShard(s, k) == {t \in Times(s) : ShardLo(k) <= t /\ t < ShardHi(k)}
 KeyOf(r) == <<r.m, r.host, r.region>>
 SidOf(r) == IF \E s \in SeriesIdx : Pool[s] = r THEN CHOOSE s \in SeriesIdx : Pool[s] = r ELSE 0
@@ -123,9 +131,14 @@ SeriesRows(sh) ==
   IN [i \in 1..Len(os) |-> CHOOSE r \in live : ord(r) = os[i]]
 
 \* multi-shard array cursor of one row: shard cursors one after the other
-RowPoints(r, sh) ==
-  LET s == SidOf(r)
-  IN Concat([i \in 1..Len(sh) |-> PointsOf(s, {t \in InShard(s, sh[i]) : c.lo <= t /\ t <= c.hi - 1})])
+HasCursor(r, k) == \E s \in SeriesIdx : Pool[s].m = r.m /\ Pool[s].f = r.f /\ InShard(s, k) # {}    \* field set of shard k
+ShardPoints(r, k) == LET s == SidOf(r) IN PointsOf(s, {t \in InShard(s, k) : c.lo <= t /\ t <= c.hi - 1})
+RECURSIVE ReadShards(_, _)
+ReadShards(r, sh) ==
+  IF sh = <<>> THEN <<>>
+  ELSE IF ~HasCursor(r, Head(sh)) THEN ReadShards(r, Tail(sh))           \* nil cursor: skipped
+  ELSE ShardPoints(r, Head(sh)) \o ReadShards(r, Tail(sh))              \* drained or empty: Next() loops to the next shard
+RowPoints(r, sh) == ReadShards(r, sh)
 
 \* groupBySort / groupByNextGroup
 SortKey(r, gk) == [i \in 1..Len(gk) |-> Rank(Tag(r, gk[i]))]          \* 0xff for a missing key
@@ -154,7 +167,7 @@ GroupImpl(rs, gk) ==
 Init ==
   /\ \E ds \in [SeriesIdx -> Patterns], ri \in RangeIdx, p \in PredIdx :
         c = [ds |-> ds, lo |-> RangeList[ri][1], hi |-> RangeList[ri][2], pi |-> p, pred |-> Preds[p],
-             pool |-> [s \in SeriesIdx |-> Pool[s]], gks |-> GK, h |-> H]
+             pool |-> [s \in SeriesIdx |-> Pool[s]], gks |-> GK, h |-> H, n |-> NShards]
   /\ phase = "init" /\ exp = <<>> /\ shards = <<>> /\ rows = <<>> /\ res = <<>> /\ grp = <<>>
 
 Expect == /\ phase = "init" /\ phase' = "plan"
